@@ -85,6 +85,7 @@ type vC13Case struct {
 	PinF   []int       `json:"pinf"`
 	Items  []vC13Item  `json:"items"`
 	Root   int         `json:"root"` // index into the expanded stream; out of range = last block
+	Abort  bool        `json:"-"`    // observed: the importer gave up after a successful last Add (real-tree runs only)
 }
 
 var (
@@ -529,13 +530,7 @@ func (r *vC13Rig) obsTerms(uni map[string]int, root cid.Cid, err error, panicked
 	return o
 }
 
-// clusterDAGService is what both services offer
-type vC13DGS interface {
-	Add(ctx context.Context, node ipld.Node) error
-	Finalize(ctx context.Context, root cid.Cid) (cid.Cid, error)
-}
-
-func (r *vC13Rig) newService() vC13DGS {
+func (r *vC13Rig) newService() adder.ClusterDAGService {
 	if r.cs.Shard {
 		return New(r.client, r.opts, nil)
 	}
@@ -649,8 +644,8 @@ func vC13InputTerm(cs *vC13Case, stream []vC13Block, uni map[string]int, rootIdx
 	if len(parts) > 0 {
 		streamTerm = "(" + strings.Join(parts, " ++ ") + ")"
 	}
-	return fmt.Sprintf("mk_input %s %s %s %d %d %s %s %s %s %s %d", cqBool(cs.Shard), cqZ(int64(cs.Rmin)), cqZ(int64(cs.Rmax)),
-		vC13Nat(cs.Limit), MaxLinks, cqBool(cs.Local), cqList(als), cqList(fs), cqListN(pf), streamTerm, rootIdx)
+	return fmt.Sprintf("mk_input %s %s %s %d %d %s %s %s %s %s %d %s", cqBool(cs.Shard), cqZ(int64(cs.Rmin)), cqZ(int64(cs.Rmax)),
+		vC13Nat(cs.Limit), MaxLinks, cqBool(cs.Local), cqList(als), cqList(fs), cqListN(pf), streamTerm, rootIdx, cqBool(cs.Abort))
 }
 
 func vC13Nat(x int) int {
